@@ -520,11 +520,35 @@ def pick_kind(seed):
     return rnd.choices(list(KINDS), [1.0] * len(KINDS))[0]
 
 
+_WORLD = {}
+
+
+def _world_profile(fam):
+    if fam not in _WORLD:
+        from simlab.profiles.chainprof import ChainProfile
+        from simlab.profiles.treeprof import TreeProfile
+        _WORLD[fam] = ChainProfile("C14") if fam == "chain_io" else TreeProfile("C14")
+    return _WORLD[fam]
+
+
 def generate_and_run(seed, index, tier):
-    return _run(pick_kind(seed), seed, tier)
+    # runs 0,1 mod 4: job crash enumeration; 2 mod 4: chain round trips + spill sessions; 3 mod 4: tree round trips
+    fam = ["job", "job", "chain_io", "tree_io"][index % 4]
+    if fam == "job":
+        return _run(pick_kind(seed), seed, tier)
+    from simlab import session
+    prof = _world_profile(fam)
+    rnd = random.Random(seed)
+    header = prof.gen_header(rnd, tier)
+    header["tier"] = tier
+    header["family"] = fam
+    return session._run(prof, header, None, rnd, prof.nsteps(rnd, tier), tier)
 
 
 def replay(plan):
-    # a C14 run is a pure function of (kind, seed, tier): the plan records them; crash indices in the violation
+    # a job run is a pure function of (kind, seed, tier): the plan records them; crash indices in the violation
     # identify the failing state.  Replaying re-enumerates the same space and must hit the same invariant.
+    if "header" in plan:
+        from simlab import session
+        return session.replay(_world_profile(plan["header"].get("family", "chain_io")), plan)
     return _run(plan["kind"], plan["seed"], plan.get("tier", "quick"))
